@@ -479,7 +479,7 @@ fn mk_frame(rng: &mut Rng, block_id: u64, n: usize) -> Frame {
     let w = rng.below(5000) as u32;
     let h = rng.below(5000) as u32;
     // the trailer may declare fewer valid bytes than were sent (extra bytes are ignored)
-    let valid = if kind != 2 && n > 0 && rng.chance(1, 5) { rng.below(n as u64 + 1) as usize } else { n };
+    let valid = if kind != 2 && n > 0 && rng.chance(2, 5) { rng.below(n as u64 + 1) as usize } else { n };
     Frame {
         block_id,
         kind,
@@ -986,7 +986,7 @@ const LAYOUTS: &[(usize, usize, usize, usize, usize, usize)] = &[
 
 const FAULTS: &[&str] = &[
     "none", "pending", "status-io", "status-disc", "status-timeout", "short", "empty", "garbage", "overflow",
-    "submit-io", "submit-disc", "submit-timeout", "trailer-status", "valid-gt-read", "drop", "dup", "merge",
+    "submit-io", "submit-disc", "submit-timeout", "trailer-status", "valid-gt-read", "drop", "dup", "merge", "hole",
 ];
 
 #[derive(Clone, Debug)]
@@ -1118,6 +1118,39 @@ fn apply_fault(rng: &mut Rng, p: &Params, plan: &mut Plan, kind: &str, frame: us
                     }
                 });
                 plan.conforming = false;
+            }
+        }
+        "hole" => {
+            // a NON-final payload packet arrives short (or empty), the later payload packets arrive as
+            // usual, and the trailer declares no more valid bytes than were actually transferred
+            let slots = p.payload_slots();
+            let f = plan.frames[frame].clone();
+            if slots.len() >= 2 && f.kind != 2 {
+                let k = 1 + part % (slots.len() - 1); // a payload part that is not the last one
+                let pos1 = plan.tags.iter().position(|tg| tg.map_or(false, |tg| tg.frame == frame && tg.part == k));
+                if let Some(pos1) = pos1 {
+                    if let Item::Data(d) = &mut plan.script[pos1] {
+                        let cut = 1 + rng.below(d.len().max(1) as u64) as usize;
+                        let n = d.len().saturating_sub(cut);
+                        d.truncate(n);
+                    }
+                    spoil(plan, pos1);
+                    let mut read = 0usize;
+                    for k in 1..t - 1 {
+                        if let Some(q) = plan.tags.iter().position(|tg| tg.map_or(false, |tg| tg.frame == frame && tg.part == k)) {
+                            if let Item::Data(d) = &plan.script[q] {
+                                read += d.len();
+                            }
+                        }
+                    }
+                    let post = plan.tags.iter().position(|tg| tg.map_or(false, |tg| tg.frame == frame && tg.part == t - 1));
+                    if let Some(post) = post {
+                        let valid = if rng.bool() { read } else { rng.below(read as u64 + 1) as usize };
+                        plan.script[post] = Item::Data(mk_trailer(f.block_id, f.kind, 0, valid as u64, 1));
+                        spoil(plan, post);
+                    }
+                    plan.conforming = false;
+                }
             }
         }
         "merge" => {
@@ -1330,11 +1363,13 @@ fn oracle(plan: &Plan, out: &Outcome) -> Verdict {
                 _ => vec![],
             })
             .collect();
-        let contiguous = items[1..t - 1].iter().enumerate().all(|(k, i)| {
-            k + 2 == t - 1 || matches!(&plan.script[*i], Item::Data(d) if d.len() == plan.params.payload_slots()[k])
-        });
-        if contiguous && (r.valid > sent.len() || r.bytes[..] != sent[..r.valid]) {
-            v.push((json!({"kind": "bytes"}), format!("payload of frame {f} differs from the bytes the device sent")));
+        // byte for byte: the valid bytes must be the bytes the device sent for this frame, in order,
+        // without gaps (whatever the packet boundaries were)
+        if r.valid > sent.len() || r.bytes[..] != sent[..r.valid] {
+            let first_bad = (0..r.valid).find(|j| sent.get(*j) != Some(&r.bytes[*j])).unwrap_or(0);
+            let from_earlier = (0..f).any(|g| plan.frames[g].payload.get(first_bad) == Some(&r.bytes[first_bad]));
+            v.push((json!({"kind": "bytes", "first_bad_offset_from_earlier_frame": from_earlier}),
+                format!("Ok payload of frame {f} (valid {}) is not the byte sequence the device sent for it ({} bytes): first difference at offset {first_bad}", r.valid, sent.len())));
         }
         if tg.iter().all(|x| x.unwrap().pristine) {
             let fr = &plan.frames[f];
